@@ -37,15 +37,23 @@ type c16Case struct {
 }
 
 var c16ThreadScenarios = []string{"goast.New+guess", "goast.WithResolver(simple)+simple", "goast.New+guess.WithMap", "unshared"}
-var c16ThreadFiles = []string{"multiblock", "typepos", "call", "commented"}
-var c16MapScenarios = []string{"imports-added-conflict", "imports-aliases-override", "imports-removed", "package-decorate-print", "newpackage", "goast-roundtrip", "extras-bytes", "clone-package"}
+
+// the first two files bind the same local name (x) to different paths: a resolver that mixes up the
+// per-file import tables of concurrently decorated files is caught by the sequential-result oracle
+var c16ThreadFiles = []string{"@xa", "@xb", "multiblock", "typepos", "call", "commented"}
+
+var c16Inline = map[string]string{
+	"@xa": "package a\n\nimport (\n\t\"fmt\"\n\n\t\"a.b/x\"\n)\n\nfunc f() {\n\tfmt.Println(x.V, x.K)\n\tx.F()\n}\n",
+	"@xb": "package a\n\nimport \"c.d/x\"\n\nvar v = x.T{F: x.K}\n\nfunc g() x.T { return x.F(v) }\n",
+}
+var c16MapScenarios = []string{"newpackage-import-error", "imports-added-conflict", "imports-aliases-override", "imports-removed", "package-decorate-print", "newpackage", "goast-roundtrip", "extras-bytes", "clone-package"}
 
 func init() {
 	core.Register(&core.Prop{
 		ID:    "C16",
 		Level: "model_checking",
 		Rule: "controlled scheduler on instrumented sources (sync primitives replaced, accesses to package-level variables and to resolver state hooked, every range-over-map under explorer control): " +
-			"2 (quick) / 3 (thorough) goroutines, each with its own Decorator and Restorer on a different file, sharing one goast resolver (lazily defaulted / WithResolver) and read-only package-name resolvers; all interleavings at the hooked operations with preemption bound 2 (quick) / 3 (thorough); " +
+			"2 (quick) / 3 (thorough) goroutines, each with its own Decorator and Restorer on a different file, sharing one goast resolver (lazily defaulted / WithResolver) and read-only package-name resolvers; all interleavings at the hooked operations with preemption bound 3; " +
 			"oracle per schedule: no access pair unordered by happens-before (vector clocks over lock release/acquire), no deadlock, no panic, every thread's tree and bytes equal its sequential result; " +
 			"sequentially: 8 import-management / package scenarios x every single (thorough: pair of) non-default map iteration order at any range-over-map, and repetition: identical output; " +
 			"plus a free-running go build -race pass of the same thread bodies; state = distinct order of accesses to shared locations / distinct map-order vector; non-trivial = schedule with a preemption or non-default map order",
@@ -90,7 +98,7 @@ func runC16(ctx *core.Ctx, unit int) {
 	switch {
 	case unit < nt:
 		sc := c16ThreadScenarios[unit/c16Shards]
-		threads, bound := 2, 2
+		threads, bound := 2, 3
 		if ctx.Thorough() {
 			threads, bound = 3, 3
 		}
@@ -187,7 +195,11 @@ func c16Body(src string, dr resolver.DecoratorResolver, rr resolver.RestorerReso
 }
 
 func c16Src(i int) string {
-	t, _ := gen.Find(importTemplates(), c16ThreadFiles[i%len(c16ThreadFiles)])
+	name := c16ThreadFiles[i%len(c16ThreadFiles)]
+	if s, ok := c16Inline[name]; ok {
+		return s
+	}
+	t, _ := gen.Find(importTemplates(), name)
 	return t.Src
 }
 
@@ -323,6 +335,11 @@ func c16MapBody(sc string) func() string {
 				return core.Outcome{Key: k, Desc: fmt.Sprintf(f, a...)}
 			})
 			return fmt.Sprint(o.OK, o.Key)
+		case "newpackage-import-error":
+			o := c18Package(c18Case{Mode: "package", Files: []string{"f2", "f6", "f9"}, Importer: true, Universe: true}, func(k, f string, a ...interface{}) core.Outcome {
+				return core.Outcome{Key: k, Desc: fmt.Sprintf(f, a...)}
+			})
+			return fmt.Sprint(o.OK, o.Key, o.Desc)
 		case "goast-roundtrip":
 			var r c16Result
 			c16Body(c16Src(0), goast.New(), guess.New(), &r)()
